@@ -120,8 +120,44 @@ FnProg(fp, sn, where) ==
 AllFnPositions == {"f_body", "f_arr", "f_prop", "f_objitem", "f_join", "f_any", "f_sum", "f_rangeop", "f_unary", "f_headers", "f_media",
                    "f_status", "f_urivar", "f_reluri", "f_xrange", "f_domain", "f_xferlist", "f_id"}
 
+\* ---- Arity: applications with too few / exactly / too many arguments ---------------------------
+\* f has np parameters (np = 1, 2), its body uses all of them or only the first; it is applied to k arguments
+\* (k = 0 is the bare name used as a value); locally or from an imported module; and the built-in concat with 1..3
+ArityNames == {"f1-0", "f1-1", "f1-2", "f2-0", "f2-1", "f2-2", "f2-3", "f2u-1", "f2u-2", "f2u-3",
+               "imp-f1-2", "imp-f2-1", "imp-f2-2", "imp-f2u-1", "imp-f2-3",
+               "concat-1", "concat-2", "concat-3", "via-let-f2-1", "nested-f2-1", "nested-f2-2"}
+ArityFn(np, allused) ==
+  IF np = 1 THEN Decl("f", <<"a">>, Obj(<<Prop("first", Var("a"))>>))
+  ELSE Decl("f", <<"a", "b">>, Obj(IF allused THEN <<Prop("first", Var("a")), Prop("second", Var("b"))>> ELSE <<Prop("first", Var("a"))>>))
+ArityArgs(k) == SubSeq(<<Prim("str"), Prim("num"), Prim("bool")>>, 1, k)
+ArityUse(fv, k) == IF k = 0 THEN fv ELSE App(fv, ArityArgs(k))
+ArityOne(stmts) == [main |-> "m1", mods |-> [m \in {"m1"} |-> stmts]]
+ArityTwo(gstmts, stmts) == [main |-> "m1", mods |-> [m \in {"m1", "g"} |-> IF m = "g" THEN gstmts ELSE <<Use("g")>> \o stmts]]
+ArityProg(nm) ==
+  CASE nm = "f1-0" -> ArityOne(<<ArityFn(1, TRUE), Body(ArityUse(Var("f"), 0))>>)
+    [] nm = "f1-1" -> ArityOne(<<ArityFn(1, TRUE), Body(ArityUse(Var("f"), 1))>>)
+    [] nm = "f1-2" -> ArityOne(<<ArityFn(1, TRUE), Body(ArityUse(Var("f"), 2))>>)
+    [] nm = "f2-0" -> ArityOne(<<ArityFn(2, TRUE), Body(ArityUse(Var("f"), 0))>>)
+    [] nm = "f2-1" -> ArityOne(<<ArityFn(2, TRUE), Body(ArityUse(Var("f"), 1))>>)
+    [] nm = "f2-2" -> ArityOne(<<ArityFn(2, TRUE), Body(ArityUse(Var("f"), 2))>>)
+    [] nm = "f2-3" -> ArityOne(<<ArityFn(2, TRUE), Body(ArityUse(Var("f"), 3))>>)
+    [] nm = "f2u-1" -> ArityOne(<<ArityFn(2, FALSE), Body(ArityUse(Var("f"), 1))>>)
+    [] nm = "f2u-2" -> ArityOne(<<ArityFn(2, FALSE), Body(ArityUse(Var("f"), 2))>>)
+    [] nm = "f2u-3" -> ArityOne(<<ArityFn(2, FALSE), Body(ArityUse(Var("f"), 3))>>)
+    [] nm = "imp-f1-2" -> ArityTwo(<<ArityFn(1, TRUE)>>, <<Body(ArityUse(Var("f"), 2))>>)
+    [] nm = "imp-f2-1" -> ArityTwo(<<ArityFn(2, TRUE)>>, <<Body(ArityUse(Var("f"), 1))>>)
+    [] nm = "imp-f2-2" -> ArityTwo(<<ArityFn(2, TRUE)>>, <<Body(ArityUse(Var("f"), 2))>>)
+    [] nm = "imp-f2u-1" -> ArityTwo(<<ArityFn(2, FALSE)>>, <<Body(ArityUse(Var("f"), 1))>>)
+    [] nm = "imp-f2-3" -> ArityTwo(<<ArityFn(2, TRUE)>>, <<Body(ArityUse(Var("f"), 3))>>)
+    [] nm = "concat-1" -> ArityOne(<<Res(Rel(App(Var("concat"), <<Uri(<<Seg("a")>>)>>), <<Xfer("get", C0)>>))>>)
+    [] nm = "concat-2" -> ArityOne(<<Res(Rel(App(Var("concat"), <<Uri(<<Seg("a")>>), Uri(<<Seg("b")>>)>>), <<Xfer("get", C0)>>))>>)
+    [] nm = "concat-3" -> ArityOne(<<Res(Rel(App(Var("concat"), <<Uri(<<Seg("a")>>), Uri(<<Seg("b")>>), Uri(<<Seg("c")>>)>>), <<Xfer("get", C0)>>))>>)
+    [] nm = "via-let-f2-1" -> ArityOne(<<ArityFn(2, TRUE), Let("h", ArityUse(Var("f"), 1)), Body(Var("h"))>>)
+    [] nm = "nested-f2-1" -> ArityOne(<<ArityFn(2, TRUE), Decl("g2", <<"x">>, App(Var("f"), <<Var("x")>>)), Body(App(Var("g2"), <<Prim("num")>>))>>)
+    [] nm = "nested-f2-2" -> ArityOne(<<ArityFn(2, TRUE), Decl("g2", <<"x">>, App(Var("f"), <<Var("x"), Var("x")>>)), Body(App(Var("g2"), <<Prim("num")>>))>>)
+
 \* one program per (position, shape, indirection) of either family
-Member(pn, sn, ind) == IF ind \in {"fnlocal", "fnimp"} THEN FnProg(pn, sn, ind) ELSE ProgOf(pn, sn, ind)
+Member(pn, sn, ind) == IF pn = "arity" THEN ArityProg(sn) ELSE IF ind \in {"fnlocal", "fnimp"} THEN FnProg(pn, sn, ind) ELSE ProgOf(pn, sn, ind)
 ValidMember(pn, ind) == (ind \in {"fnlocal", "fnimp"}) <=> (pn \in AllFnPositions)
 
 \* ---- RecGraphs: dependency graphs over N declarations of every kind ------------------------------
@@ -222,7 +258,9 @@ UriShapes ==
   {Uri(<<Seg("")>>), Uri(<<Seg("a")>>), Uri(<<Seg("a"), Seg("b")>>), Uri(<<Seg("a"), Seg("")>>),
    Uri(<<Seg("a"), UVar(Prop("id", Prim("int")))>>), Uri(<<UVar(PropReq("k", Prim("str"))), Seg("x")>>),
    UriQ(<<Seg("q")>>, Obj(<<Prop("f", Prim("str")), PropReq("g", Prim("num")), PropOpt("h", Prim("bool"))>>)),
-   UriQ(<<Seg("a"), UVar(Prop("id", Prim("int")))>>, Obj(<<PropReq("page", Prim("int"))>>))}
+   UriQ(<<Seg("a"), UVar(Prop("id", Prim("int")))>>, Obj(<<PropReq("page", Prim("int"))>>)),
+   \* a query parameter with the name of a path variable: two parameters (OpenAPI identifies a parameter by name and location)
+   UriQ(<<Seg("n"), UVar(Prop("nm", Prim("int")))>>, Obj(<<Prop("nm", Prim("str")), Prop("q", Prim("str"))>>))}
 UrisFamily ==
   {[main |-> "m1", mods |-> [m \in {"m1"} |-> <<Res(Rel(u, <<Xfer("get", C0)>>))>>]] : u \in UriShapes}
   \cup {[main |-> "m1", mods |-> [m \in {"m1"} |-> <<Res(Rel(App(Var("concat"), <<u1, u2>>), <<Xfer("get", C0)>>))>>]] : u1 \in UriShapes, u2 \in UriShapes}
